@@ -38,11 +38,11 @@ type RunResult struct {
 }
 
 type ReplayFile struct {
-	Property  string     `json:"property"`
-	Tier      string     `json:"tier"`
-	Seed      uint64     `json:"seed"`
-	Run       int        `json:"run"`
-	Variant   string     `json:"variant"` // e.g. "verif", "verif,vectors", "+race"
+	Property string `json:"property"`
+	Tier     string `json:"tier"`
+	Seed     uint64 `json:"seed"`
+	Run      int    `json:"run"`
+	Variant  string `json:"variant"` // e.g. "verif", "verif,vectors", "+race"
 	// From, when set, makes this a SEQUENCE replay: the seeded runs From..Run are
 	// executed one after the other in one process and the result of the last one
 	// is reported. Used when a violation depends on process-wide state left behind
